@@ -945,7 +945,8 @@ impl CodegenContext {
                                 .unwrap_or_else(|| target_pc.into())
                                 + 2)
                             .as_i64();
-                            let mut offset = target_pc - cur_pc;
+                            // A target that is so far away that the distance doesn't fit is simply too far
+                            let mut offset = target_pc.checked_sub(cur_pc).unwrap_or(i64::MAX);
                             if (-128..=127).contains(&offset) {
                                 if offset < 0 {
                                     offset += 256;
